@@ -38,6 +38,20 @@ fn clock() -> &'static Clock {
 /// only for measuring elapsed time between two reads, never as a timestamp to
 /// compare against another machine's clock.
 pub fn now_ms() -> u64 {
+    // verif-hooks (OFF by default): a harness-set instant, so that a native replay
+    // of a model-checker counterexample reads the same clock the model did.
+    #[cfg(feature = "verif-hooks")]
+    {
+        let t = VH_CLOCK_OVERRIDE_MS.load(std::sync::atomic::Ordering::Relaxed);
+        if t != 0 {
+            return t;
+        }
+    }
     let c = clock();
     c.base_ms + c.anchor.elapsed().as_millis() as u64
 }
+
+/// Verification hook (feature `verif-hooks`, OFF by default): when non-zero,
+/// [`now_ms`] returns this value instead of reading the clock.
+#[cfg(feature = "verif-hooks")]
+pub static VH_CLOCK_OVERRIDE_MS: std::sync::atomic::AtomicU64 = std::sync::atomic::AtomicU64::new(0);
